@@ -102,6 +102,16 @@ func policySweep(c *Ctx, n int, invalidEvery int, allMinors bool, perPodMinors i
 				podf(pc, valid, proj)
 			}
 			ms := minors
+			if pc.FewMinors && len(minors) > 7 {
+				ms = []int{-1}
+				seen := map[int]bool{-1: true}
+				for k := 0; k < 6; k++ {
+					if m := minors[(i*5+k*(len(minors)/6+1))%len(minors)]; !seen[m] {
+						seen[m] = true
+						ms = append(ms, m)
+					}
+				}
+			}
 			if i >= len(cat) && perPodMinors > 0 && perPodMinors < len(minors) {
 				ms = nil
 				for _, k := range r.Perm(len(minors))[:perPodMinors] {
